@@ -91,6 +91,21 @@ def ev(t, env):
         return a[0] >= a[1]
     if op == "Not":
         return not a[0]
+    if op == "signum":
+        return Fraction((a[0] > 0) - (a[0] < 0))
+    if op == "sign":
+        return "Minus" if a[0] < 0 else ("Plus" if a[0] > 0 else "NoSign")
+    if op == "sign_is":
+        s_ = "Minus" if a[0] < 0 else ("Plus" if a[0] > 0 else "NoSign")
+        return s_ == a[1]
+    if op == "discr":
+        if isinstance(a[0], str) and a[0] in ("Minus", "NoSign", "Plus"):
+            return Fraction(("Minus", "NoSign", "Plus").index(a[0]))
+        if isinstance(a[0], bool):
+            return Fraction(int(a[0]))
+        raise Unrecognised("discriminant of %r" % (a[0],))
+    if op in ("BitAnd", "BitOr") and all(isinstance(x, bool) for x in a):
+        return (a[0] and a[1]) if op == "BitAnd" else (a[0] or a[1])
     if op == "is_zero":
         return a[0] == 0
     if op == "is_one":
